@@ -3465,7 +3465,10 @@ func (v *binaryExprVisitor) checkAndPrepare(p *printer) bool {
 
 	// Destructuring assignments must be parenthesized
 	if n := len(p.js); p.stmtStart == n || p.arrowExprStart == n {
-		if _, ok := e.Left.Data.(*js_ast.EObject); ok {
+		if _, ok := e.Left.Data.(*js_ast.EObject); ok && e.Op != js_ast.BinOpComma {
+			// Not for the comma operator: "({}, a), b" and "({}, (a, b))" would be
+			// printed with the parentheses in different places although parsing
+			// either output gives the same tree (the object wraps itself instead)
 			v.wrap = true
 		}
 	}
